@@ -604,3 +604,43 @@ Example C02_edit_noarg_nonvacuous :
    dirty_flag e' = false /\ snd (ec_edit_noarg false file [e']) = false /\
    map (fun b => (ln (lb b), disk b, dirty_flag b)) (fst (ec_edit_noarg false file [e'])) = [([ONE; two; three], [ONE; two; three], false)]).
 Proof. vm_compute. repeat split. Qed.
+
+(* ROUND g AT THE EX INTERFACE: ExDirty.XEdit c = `e` without a file name and without `!` as a script command of the ex model --
+   bufs_modified first (ec_edit's guard comes before the argument is looked at); only when it reports clean, the re-read of `e!`
+   (lbuf_edit over the whole buffer with what the file holds, lbuf_saved(xb, 0)).  XEdit is part of xcmd, so C02_ex_history,
+   C02_ex_clean_sound, C02_ex_quit_sound and the table theorems above quantify over scripts containing it. *)
+Theorem C02_ex_edit_refused : forall rvalid rfind filter readfile curpath fuel (x : ExDirty.xst) c,
+  snd (ExDefs.lbuf_modified (ExDefs.lb (ExDirty.xs x))) = true ->
+  let x' := ExDirty.xstep rvalid rfind filter readfile curpath fuel x (ExDirty.XEdit c) in
+  ExSpec.texts (ExDirty.xs x') = ExSpec.texts (ExDirty.xs x) /\
+  ExDefs.hist (ExDefs.lb (ExDirty.xs x')) = ExDefs.hist (ExDefs.lb (ExDirty.xs x)) /\
+  ExDefs.hist_u (ExDefs.lb (ExDirty.xs x')) = ExDefs.hist_u (ExDefs.lb (ExDirty.xs x)) /\
+  ExDirty.xdisk x' = ExDirty.xdisk x /\ snd (ExDefs.lbuf_modified (ExDefs.lb (ExDirty.xs x'))) = true.
+Proof. exact ExDirty.ex_edit_refused. Qed.
+Print Assumptions C02_ex_edit_refused.
+
+Theorem C02_ex_edit_sound : forall data rvalid rfind filter readfile curpath fuel input wa cs c,
+  let x := ExDirty.xrun rvalid rfind filter readfile curpath fuel (ExDirty.xinit data input wa) cs in
+  snd (ExDefs.lbuf_modified (ExDefs.lb (ExDirty.xs x))) = false ->
+  let x' := ExDirty.xstep rvalid rfind filter readfile curpath fuel x (ExDirty.XEdit c) in
+  ExUndo.utext (ExDefs.lb (ExDirty.xs x)) = ExDirty.xdisk x /\
+  ExUndo.utext (ExDefs.lb (ExDirty.xs x')) = UndoDefs.lines_of c /\ ExDirty.xdisk x' = UndoDefs.lines_of c /\
+  snd (ExDefs.lbuf_modified (ExDefs.lb (ExDirty.xs x'))) = false.
+Proof. exact ExDirty.ex_edit_sound. Qed.
+Print Assumptions C02_ex_edit_sound.
+
+(* not vacuous, on the file a b: `1d`, `e` (file still a b): refused, the text stays b, q is still refused; `1d`, `u`, `e`: goes
+   through, q exits; `1d`, `e!`, `1d`, `e`: refused *)
+Example C02_ex_edit_nonvacuous :
+  let run := ExDirty.xrun (fun _ => true) (fun _ _ _ => None) (fun _ _ => None) (fun _ => None) [] 10 in
+  let x0 := ExDirty.xinit [97;10;98;10]%N [] true in
+  let ab := [97;10;98;10]%N in
+  let q cs := ExDefs.xquit (ExDirty.xs (run x0 (cs ++ [ExDirty.XQuit]))) in
+  let t cs := ExSpec.texts (ExDirty.xs (run x0 cs)) in
+  t [ExDirty.XLine [49;100]%N; ExDirty.XEdit ab] = [[98]]%N /\
+  q [ExDirty.XLine [49;100]%N; ExDirty.XEdit ab] = false /\
+  t [ExDirty.XLine [49;100]%N; ExDirty.XLine [117]%N; ExDirty.XEdit ab] = [[97]; [98]]%N /\
+  q [ExDirty.XLine [49;100]%N; ExDirty.XLine [117]%N; ExDirty.XEdit ab] = true /\
+  t [ExDirty.XLine [49;100]%N; ExDirty.XReload ab; ExDirty.XLine [49;100]%N; ExDirty.XEdit ab] = [[98]]%N /\
+  q [ExDirty.XLine [49;100]%N; ExDirty.XReload ab; ExDirty.XLine [49;100]%N; ExDirty.XEdit ab] = false.
+Proof. vm_compute. repeat split. Qed.
